@@ -179,7 +179,9 @@ def run(ck):
                 j2["op"] = {k: v for k, v in op.items() if k != "_oracle"}
                 prog, enc = M.op_program(j2, res, cfg, ps)
                 if prog:
-                    cases.append((len(cases), f"enc_replay_diag {enc} (run_trace ({prog}) {trace_to_coq(res['trace'])} 0)", j2, res, tag))
+                    # trace_beneath: the judgement of C13_stays_beneath evaluated on the recorded calls themselves (MonitorProofs.sub_sound)
+                    cases.append((len(cases), f"let t := {trace_to_coq(res['trace'])} in enc_replay_diag {enc} (run_trace ({prog}) t 0) ++ "
+                                              f"[(if trace_beneath t then 1 else 0)%Z]", j2, res, tag))
     # ---- links swapped in while remove_all runs are not followed either (deterministic preemption, as in C03)
     import sched as S
     from props.C03 import foreign_ok
@@ -236,14 +238,31 @@ def run(ck):
                              {"job": J.describe({"op": job["op"]}), "competing_remover_ran_before_call": job["at"], "resolver": "emulated" if deny else "openat2",
                               "outcome": r, "path_still_there": still})
             nontrivial.add(("competing", job["target"], job["at"], tag))
+    if ck.proof_broken and cases:
+        # a proof or tie is broken: the model cannot be trusted, but the monitor needs no model -- use it to look for a concrete trace
+        mevals, _ = coq_eval([(c[0], "let t := %s in [(if trace_beneath t then 1 else 0)%%Z]" % trace_to_coq(c[3]["trace"])) for c in cases],
+                             header="From PV Require Import Replay MonitorProofs.", tag="c13m")
+        for cid, term, job, res, tag in cases:
+            if mevals.get(cid) == [0]:
+                ck.violation("C13: a recorded remove_all trace leaves the named subtree (monitor of C13_stays_beneath on the recorded calls)",
+                             {"job": J.describe({"op": job["op"]}), "deny": tag, "outcome": res.get("res"),
+                               "calls": [e for e in res["trace"] if e["c"] in ("unlinkat", "mkdirat", "openat", "openat2", "renameat", "renameat2", "linkat", "symlinkat", "mknodat")][-40:]})
+                break
     if not ck.proof_broken:
-        evals, cerrs = coq_eval([(c[0], c[1]) for c in cases], header="From PV Require Import Replay.", tag="c13")
+        evals, cerrs = coq_eval([(c[0], c[1]) for c in cases], header="From PV Require Import Replay MonitorProofs.", tag="c13")
         if cerrs:
             ck.violation("T1: Coq evaluation of the case files failed", {"log": cerrs[0][-1500:]}, False)
         for cid, term, job, res, tag in cases:
             rep = evals.get(cid)
             if rep is None:
                 continue
+            rep, beneath = rep[:-1], rep[-1]
+            stats["monitored"] = stats.get("monitored", 0) + 1
+            if beneath != 1:
+                ck.violation("C13: a recorded remove_all trace leaves the named subtree: an unlinkat/openat on a descriptor that does not descend "
+                             "from (parent, name) by no-follow opens, a name with '/' or a dot name, or another tree-changing call",
+                             {"job": J.describe(job), "deny": tag, "outcome": res.get("res"),
+                              "calls": [e for e in res["trace"] if e["c"] in ("unlinkat", "openat", "openat2", "renameat", "renameat2", "mkdirat", "linkat", "symlinkat", "mknodat")][:40]})
             if rep[0] == 0 and M.outcome_matches(res, rep[2:]):
                 stats["t1_ok"] += 1
             else:
@@ -258,6 +277,7 @@ def run(ck):
                 "link) x both backends; 2-4 racing callers on one path (real threads released by a barrier); non-trivial = successful removals "
                 "and races; distinct by (path, subtree size, backend)",
         "samples": samples or [{"note": "none"}],
+        "traces_checked_by_beneath_monitor": stats.get("monitored", 0),
         "successful_removals": stats["removed_ok"], "failed_calls": stats["refused"], "dot_paths_refused": stats["dots"],
         "racing_groups": stats["races"], "runs_with_a_link_swapped_in": stats.get("swapped_in", 0), "runs_with_a_competing_remover": stats.get("competing", 0), "subtree_size_histogram": stats["subtree_sizes"],
         "traces_validated_against_impl": stats["t1_ok"], "t1_mismatches": stats["t1_bad"], "disagreements_checked": stats["t1_bad"],
